@@ -497,10 +497,13 @@ def check_case(case):
             vals = [K.o_val(s, p, case["curve"][2], case["curve"][1]) for s in specs]
             # "twin": every operand but the first lies on an equal-but-distinct CurveFp object
             c2 = K.twin_curve(c, case["twin"]) if case.get("twin") else c
+            # "twin0": the FIRST operand too lies on a twin - so that both curve objects can declare a cofactor, and different
+            # ones (the group law does not know the cofactor; round-8 seed C06-mut58-1 made CurveFp.__eq__ compare it)
+            c1 = K.twin_curve(c, case["twin0"]) if case.get("twin0") else c
             subs = case.get("sub", ())                 # operands that are instances of trivial user subclasses
 
             def mk(i):                                 # a FRESH object every time: scale() mutates
-                o = specs[i].make(c if i == 0 else c2)
+                o = specs[i].make(c1 if i == 0 else c2)
                 return K.as_subclass(o) if i in subs else o
             pts = list(vals)
             if kind == "add":
@@ -823,6 +826,10 @@ def search_toy_curve(ctx, S, p, a, b):
                 case = mkcase(cur, chk, args)
                 case["twin"] = mode
                 S.case(case, pre + "twin.%s.%s" % (chk, mode))
+                if chk in ("add", "eq") and rng.random() < 0.5:
+                    case = mkcase(cur, chk, args)
+                    case["twin0"], case["twin"] = rng.choice([("new_h1", "new_h4"), ("new_h4", "new_h1"), ("new_h4", "new"), ("new_h1", "pickle")])
+                    S.case(case, pre + "twin.%s.both-declare-cofactors" % chk)
     # operands on a DIFFERENT curve whose parameters collide under hash() with this curve's
     if p > 3:
         fin = [T for T in pts if T[1] % p]     # y = 0 is read as the identity (K1) and the identity passes through `+` unchecked
